@@ -12,6 +12,7 @@ DEFECTS = [
     ("NoTruncate", "InstalledIntact", "the reused snapshot file keeps bytes behind the new content"),
     ("NoLiveLoad", "FollowerServesPrefix", "finalize does not load the snapshot into the running state machine"),
     ("ReinstallOnDup", "InstalledIntact", "a repeated final chunk installs the empty file of a new session"),
+    ("InstallKeepsTmp", "FollowerServesPrefix", "loading the snapshot leaves an echoed (temporary) config value in place"),
 ]
 
 
@@ -33,7 +34,7 @@ def run(tier):
     sc = vlib.scratch("c08")
 
     mc = vlib.tlc_mc("SnapInstall.tla", "MC_SnapInstall.cfg" if quick else "MC_SnapInstall_thorough.cfg", name="c08_mc", timeout=3000)
-    vlib.require_actions(mc, ["LWrite", "LMembers", "LCompact", "Replicate", "StartStream", "Chunk", "DupFinal", "FCrash", "FStart"])
+    vlib.require_actions(mc, ["LWrite", "LMembers", "LCompact", "Replicate", "FEcho", "StartStream", "Chunk", "DupFinal", "FCrash", "FStart"])
     c.add_mc(mc)
     for d, inv, what in DEFECTS:
         n = vlib.tlc_mc("SnapInstall.tla", "MC_SnapInstall_defect_%s.cfg" % d, expect_violation=inv, name="c08_neg")
